@@ -14,9 +14,20 @@ var alnumOrDashRegexp = regexp.MustCompile("[^a-z_0-9-]+")
 var unsafeFileNameRegexp = regexp.MustCompile("[^a-zA-Z_0-9-]+")
 
 func GetIndividuals(document *gedcom.Document, placesMap map[string]*place) map[string]*gedcom.IndividualNode {
+	return getIndividuals(document, placesMap, LivingVisibilityShow)
+}
+
+// getIndividuals is GetIndividuals for a published site. Living individuals
+// only receive a page name when they are shown, otherwise their names would
+// influence the page names of everybody else.
+func getIndividuals(document *gedcom.Document, placesMap map[string]*place, visibility LivingVisibility) map[string]*gedcom.IndividualNode {
 	individualMap := map[string]*gedcom.IndividualNode{}
 
 	for _, individual := range document.Individuals() {
+		if visibility != LivingVisibilityShow && individual.IsLiving() {
+			continue
+		}
+
 		name := individual.Name().String()
 
 		key := getUniqueKey(individualMap, alnumOrDashRegexp.
